@@ -58,6 +58,19 @@ theorem escape_entries_decode (c : UInt8) (tail : Bytes)
   rw [esc1, if_pos (by rw [hl]; exact h.2), hl] at this
   exact this
 
+set_option maxRecDepth 100000 in
+/-- The only `\u` escapes the writer can produce are `\u00XX` of control characters: every entry of
+the source's table is empty, a two-character escape, or `\u00` followed by two more characters.  In
+particular the writer never emits a surrogate escape (`\ud800` …), lone or paired; a capture that
+contains the *characters* `\ud800` gets its backslash escaped like any other (`escape_roundtrip`). -/
+theorem escapes_are_control_only : ∀ n, n < Gen.C16.escapeLookup.length →
+    Gen.C16.escapeLookup.getD n [] = [] ∨
+    ((Gen.C16.escapeLookup.getD n []).length = 2 ∧ (Gen.C16.escapeLookup.getD n []).head? = some 0x5c ∧
+      (Gen.C16.escapeLookup.getD n []).getD 1 0 ≠ 0x75) ∨
+    ((Gen.C16.escapeLookup.getD n []).length = 6 ∧
+      (Gen.C16.escapeLookup.getD n []).take 4 = [0x5c, 0x75, 0x30, 0x30] ∧ n < 0x20) := by
+  decide
+
 /-- **Exactly what `escape` emits**, for every byte string, well-formed UTF-8 or not: byte by byte, the
 entry of the source's table for the 34 bytes that have one, and the byte itself – unchanged, in
 place – for every other byte (so in particular for every byte ≥ 0x80 of an ill-formed capture). -/
